@@ -174,7 +174,8 @@ def concrete_transform(tkey, diff, mid):
 # ---- structure: history -> abstract family ----------------------------------------------------
 GLYPH_OPS = ["comp", "d2x2:0", "d2x2:1", "d2x2:S", "nest", "mixed", "dflip"]
 # "comps1st": same layer as "comps" but the sparse source is listed before the default master
-SPARSE_OPS = ["sparse:bases", "sparse:comps", "sparse:mix", "sparse:comps1st"]
+# "comps+nd": the "comps" layer additionally has its own '.notdef' glyph
+SPARSE_OPS = ["sparse:bases", "sparse:comps", "sparse:mix", "sparse:comps1st", "sparse:comps+nd"]
 SKIP_OPS = ["skip:base", "skip:comp"]
 FILTER_OPS = ["filt:dtc:0", "filt:dtc:1", "filt:dtc:all", "filt:flat:0"]
 ALL_OPS = GLYPH_OPS + SPARSE_OPS + SKIP_OPS + FILTER_OPS
@@ -271,9 +272,9 @@ def skip_list(st):
 
 def sparse_names(st):
     """Which glyphs the sparse layer contains."""
-    v = st["sparse"].replace("1st", "")
+    v = st["sparse"].replace("1st", "").replace("+nd", "")
     g = st["glyphs"]
-    out = []
+    out = [".notdef"] if st["sparse"].endswith("+nd") else []
     for n, d in g.items():
         if d["role"] in ("notdef", "empty"):
             continue
